@@ -25,6 +25,26 @@ VALID = [
 ]
 
 
+VALID += [
+    # expansion-time reads (conditions, loop bounds, macro arguments) several scopes BELOW the definition, and of undefined names from there
+    "DEBUG := 1\nn := 3\n.macro dbg() {\n.if DEBUG {\nnop\n}\n}\n*=0x008000\n.scope s {\n{\ndbg()\n.for k := 0, n {\n{\n.db k, n\n.if UNDEFINED {\nrts\n} else {\n.if DEBUG {\nclc\n}\n}\n}\n}\n}\n}\n",
+    "*=0x008000\n.macro r(d) {\n.if d {\n{\nr(d - 1)\n}\n} else {\n.db top\n}\n}\ntop := 7\n{\n{\n{\nr(4)\n.if nowhere {\nnop\n}\n}\n}\n}\n",
+]
+
+
+def nested(rng):
+    """a program whose expansion-time reads sit `depth` scopes below the definitions (blocks, named scopes, loop iterations, macro applications)"""
+    depth = rng.randint(2, 6)
+    head = "*=0x008000\nFLAG := %d\ncount := %d\n.macro probe(v) {\n.if FLAG {\n.db v\n}\n.if MISSING {\nnop\n}\n}\n" % (rng.choice([0, 1]), rng.randint(0, 3))
+    opens, closes = [], []
+    for i in range(depth):
+        k = rng.choice(["block", "scope", "for", "if"])
+        opens.append({"block": "{", "scope": ".scope s%d {" % i, "for": ".for i%d := 0, count {" % i, "if": ".if FLAG {"}[k])
+        closes.append("}")
+    inner = rng.choice(["probe(count)", ".if FLAG {\nnop\n}", ".for j := 0, count {\n.db j\n}", ".if MISSING {\nnop\n} else {\nclc\n}", "probe(MISSING)", ".db count, FLAG"])
+    return head + "\n".join(opens) + "\n" + inner + "\n" + "\n".join(closes) + "\n"
+
+
 def run_one(src, limit=4):
     """-> 'ok' | 'error' | 'exception:<T>' | 'TIMEOUT' ; runs in this process under SIGALRM (the scanner/parser are pure Python loops)"""
     from common import assemble
@@ -72,6 +92,9 @@ def gen(tier, rng):
         seqs.append(rng.choice([" ", "\n", ""]).join(rng.choice(ALPHABET) for _ in range(k)))
     for v in VALID:
         seqs += mutations(v, rng, 200 if tier == "thorough" else 60)
+    seqs += VALID
+    for _ in range(400 if tier == "thorough" else 80):
+        seqs.append(nested(rng))
     for _ in range(300 if tier == "thorough" else 60):
         seqs.append("".join(chr(rng.choice([rng.randrange(1, 128), rng.randrange(0, 32), 0x27, 0x2F, 0x2A, 0x3B, 0x0A])) for _ in range(rng.randint(1, 40))))
     return seqs
@@ -99,7 +122,7 @@ def run(tier, seed):
     return {"evaluations": len(seqs), "distinct_nontrivial": len(set(seqs)),
             "rule": "token-alphabet sequences (78 snippets covering every token kind, unterminated strings/comments, NUL, junk): all sequences of length <= 2 "
                     "(thorough: plus 12% of length 3) with space/newline separators, seeded sequences of 3-12 snippets, every truncation / line deletion / line "
-                    "duplication / single-character corruption of 3 valid programs, byte soup; each under a 4 s watchdog; distinct = distinct sources",
+                    "duplication / single-character corruption of 5 valid programs, programs whose expansion-time symbol reads sit 2-6 scopes below the definitions (or read undefined names from there), byte soup; each under a 4 s watchdog; distinct = distinct sources",
             "samples": [seqs[5], seqs[len(seqs) // 2][:80]], "failures": failures, "outcomes": {k: sum(1 for _, r in results if r.split(':')[0] == k) for k in ("ok", "error", "exception", "TIMEOUT")}}
 
 
